@@ -101,6 +101,20 @@ Proof. exact tx_other_flags. Qed.
 Print Assumptions C20_tx_nonrecipients_untouched. Print Assumptions C20_tx_failed_treatment_changes_nothing.
 Print Assumptions C20_tx_row_effect. Print Assumptions C20_tx_other_flags_untouched.
 
+(* ---- 6. diagnostic product: the result of an agent is the minimum (best-ranked) category drawn over the states it is in, the default otherwise;
+        the returned dictionary partitions the tested agents *)
+Theorem C20_dx_result_in_hierarchy : forall default rows, (dx_agent default rows <= default)%nat.
+Proof. exact dx_result_in_hierarchy. Qed.
+Theorem C20_dx_untested_state_default : forall default rows, (forall r, In r rows -> fst r = false) -> dx_agent default rows = default.
+Proof. exact dx_no_state_default. Qed.
+Theorem C20_dx_result_is_minimum : forall default rows,
+  (forall r, In r rows -> fst r = true -> (dx_agent default rows <= snd r)%nat) /\
+  (dx_agent default rows = default \/ exists r, In r rows /\ fst r = true /\ dx_agent default rows = snd r).
+Proof. intros default rows. split; [intros r; apply dx_lower_bound|apply dx_attained]. Qed.
+Theorem C20_dx_dictionary_partitions : forall res u k, In u (dx_group k res) <-> In (u, k) res.
+Proof. intros res u k. split; [apply dx_groups_sound|apply dx_groups_partition]. Qed.
+Print Assumptions C20_dx_result_in_hierarchy. Print Assumptions C20_dx_untested_state_default. Print Assumptions C20_dx_result_is_minimum. Print Assumptions C20_dx_dictionary_partitions.
+
 (* ---- non-vacuity: concrete windows, a queue history with capacity 2, a full vaccine *)
 Example C20_window_dt1 : routine_timepoints 2 4 1 = [2; 3; 4].
 Proof. vm_compute. reflexivity. Qed.
@@ -118,3 +132,5 @@ Proof. vm_compute. reflexivity. Qed.
 Example C20_full_vaccine : option_map (fun r => rel_sus (snd r))
   (vx_step [3] [1%Q] 3 [0; 2]%nat (fun _ => 1 # 2) 1 (mkVP [false; false; false] [0; 0; 0] [V 1; V 1; V (3 # 4)])) = Some [V 0; V 1; V (0 # 4)].
 Proof. vm_compute. reflexivity. Qed.
+Example C20_dx_example : dx_agent 2 [(true, 1); (false, 0); (true, 2)]%nat = 1%nat /\ dx_agent 2 [(false, 0)]%nat = 2%nat.
+Proof. vm_compute. split; reflexivity. Qed.
